@@ -112,6 +112,8 @@ def plan_C01(run):
     n = q(run, 1500, 30000)
     # corners of the numeric domain (+-20 beta, sigma 1e-4..10 beta, 16-player teams, beta over six orders of magnitude)
     campaign(run, "extremes", {"C01"}, lambda s, r: drivers.extremes_campaign(s, r, q(run, 500, 10000), ops=("rate",)))
+    # stratified over the kernel regimes: mismatch uniform in [0, 9.5] c, win / loss / draw
+    campaign(run, "kernel-regimes", {"C01"}, lambda s, r: drivers.tm_regimes(s, r, q(run, 700, 15000)))
     campaign(run, "rate-campaign", {"C01"}, lambda s, r: drivers.rate_campaign(s, r, n))
     run.require_classes(RATE_CLASSES + ["gamma=probe", "gamma=big", "gamma=one", "gamma=zero"], "rate-campaign")
     return {"rule": "random rate() calls over the full numeric domain (2-8 teams x 1-8 players, five models, "
@@ -168,6 +170,8 @@ def plan_C04(run):
 def plan_C05(run):
     mc.lattice(run, "cast4", ALL_KINDS, q(run, ["default"], ["default", "tau_big", "kappa_big", "gamma_one"]), 4, q(run, 3, 4))
     n = q(run, 1000, 30000)
+    # stratified over the kernel regimes: mismatch uniform in [0, 9.5] c, win / loss / draw
+    campaign(run, "kernel-regimes", {"C05"}, lambda s, r: drivers.tm_regimes(s, r, q(run, 700, 15000)))
     campaign(run, "rate-campaign", {"C05"}, lambda s, r: drivers.rate_campaign(s, r, n))
     run.require_classes(RATE_CLASSES, "rate-campaign")
     campaign(run, "known-finding-witnesses", {"C05"}, lambda s, r: drivers.known_finding_witnesses(s))
@@ -182,6 +186,8 @@ def plan_C06(run):
     mc.lattice(run, "cast4", ALL_KINDS, q(run, ["tau0_call", "limit_call", "tau_big", "gamma_zero"], SETTINGS_ALL), 4, q(run, 2, 3))
     n = q(run, 1500, 30000)
     campaign(run, "extremes", {"C06"}, lambda s, r: drivers.extremes_campaign(s, r, q(run, 500, 10000), ops=("rate",)))
+    # stratified over the kernel regimes: mismatch uniform in [0, 9.5] c, win / loss / draw
+    campaign(run, "kernel-regimes", {"C06"}, lambda s, r: drivers.tm_regimes(s, r, q(run, 700, 15000)))
     campaign(run, "rate-campaign", {"C06"}, lambda s, r: drivers.rate_campaign(s, r, n))
     run.require_classes(RATE_CLASSES, "rate-campaign")
     # league histories: every step validated from the observed pre-state, which must be the previous post-state
@@ -194,6 +200,8 @@ def plan_C07(run):
     mc.lattice(run, "cast4", ALL_KINDS, q(run, ["default"], ["default", "tau_big", "kappa_big", "gamma_probe"]), 4, q(run, 3, 4))
     n = q(run, 1500, 40000)
     campaign(run, "extremes", {"C07"}, lambda s, r: drivers.extremes_campaign(s, r, q(run, 500, 10000), ops=("rate",)))
+    # stratified over the kernel regimes: mismatch uniform in [0, 9.5] c, win / loss / draw
+    campaign(run, "kernel-regimes", {"C07"}, lambda s, r: drivers.tm_regimes(s, r, q(run, 700, 15000)))
     campaign(run, "rate-campaign", {"C07"}, lambda s, r: drivers.rate_campaign(s, r, n))
     run.require_classes(RATE_CLASSES, "rate-campaign")
     return {"rule": "random rate() calls; precision-weighted zero sum of observed mu changes"}
